@@ -524,8 +524,10 @@ DoAct ==
               /\ Pop /\ lab' = Silent /\ UNCHANGED <<store, phase, pending, ready, crashed>>
          [] a.k = "fiat" ->
               \* a fiat drives a slave's runner directly, inside the current run
+              \* and reports whether the requested state was reached
               /\ Push(<< [op |-> "run", t |-> a.who, ctl |-> a.ctl],
-                         [op |-> "yield", t |-> a.who, ctl |-> a.ctl, top |-> FALSE] >>)
+                         [op |-> "yield", t |-> a.who, ctl |-> a.ctl, top |-> FALSE],
+                         [op |-> "fiatRet", t |-> a.who, ctl |-> a.ctl] >>)
               /\ lab' = Silent /\ UNCHANGED <<fs, store, phase, pending, ready, crashed>>
          [] a.k = "raise" ->
               \* an exception (or a keyboard interrupt) out of an action unwinds the whole run of the
@@ -545,13 +547,14 @@ DoAct ==
 (* recorded execution of the real code)                                                        *)
 Quiescent == todo = <<>>
 Taskables == Range(prog.order)
+Slaves == {g \in Framers : prog.framers[g].sched = "slave"}
 
 \* C05: a started/running framer's active frames are the outline of its active frame, cut at the
 \* main frame of a running conditional auxiliary; a stopped/aborted framer has none
 RunningCondMain(f) == {k \in Range(Outline(fs[f].active)) :
                          \E x \in CondAuxesOf(k) : ~fs[x].done /\ fs[x].main = k}
 ActivesAreOutline ==
-    Quiescent => \A f \in Taskables :
+    Quiescent => \A f \in Taskables \cup Slaves :
         IF Running(f)
         THEN \/ fs[f].actives = Outline(fs[f].active)
              \/ \E k \in RunningCondMain(f) : fs[f].actives = HeadOf(k)
@@ -569,7 +572,7 @@ Expected(f, depth) ==
          ks \cup UNION {UNION {Expected(AuxesOf(k)[i], depth - 1) : i \in 1..Len(AuxesOf(k))} : k \in ks}
             \cup UNION {UNION {Expected(x, depth - 1) : x \in {y \in CondAuxesOf(k) : ~fs[y].done /\ fs[y].main = k}} : k \in ks}
 Bracket == (Quiescent /\ crashed # "error" /\ ~(crashed = "interrupt" /\ \E f \in Taskables : fs[f].status = "aborted" /\ fs[f].active # "")) =>
-    {k \in FrameKeys : entered[k] = 1} = UNION {Expected(f, MaxAuxDepth + 1) : f \in Taskables \cup {g \in Framers : prog.framers[g].sched = "slave"}}
+    {k \in FrameKeys : entered[k] = 1} = UNION {Expected(f, MaxAuxDepth + 1) : f \in Taskables \cup Slaves}
 
 \* C09: an original auxiliary is owned by at most one frame, and exactly while it is active
 AuxOwnership == Quiescent => \A a \in Framers :
@@ -579,7 +582,6 @@ AuxOwnership == Quiescent => \A a \in Framers :
 EndClean == phase = "end" =>
     /\ \A f \in Taskables : sweeps[f] <= 1
     /\ \A f \in Taskables : fs[f].status = "aborted"
-    /\ (crashed = "" => \A k \in FrameKeys : entered[k] = 0)
 
 \* C02: an aborted tasker is never scheduled again; each tasker is scheduled at most once
 ScheduledOnce == \A i, j \in 1..Len(pending \o ready) :
@@ -587,7 +589,15 @@ ScheduledOnce == \A i, j \in 1..Len(pending \o ready) :
 AbortedNotScheduled == (Quiescent /\ phase = "between") =>
     \A i \in 1..Len(ready) : fs[ready[i].t].status # "aborted"
 
-MachineStep == RunOp \/ SetStatus \/ Yield \/ EnterAll \/ EnterFrames \/ EnterFrame \/ SetMain \/ ExitAll
+Reached(ctl) == CASE ctl = "ready" -> "readied" [] ctl = "start" -> "started" [] ctl = "run" -> "running"
+                  [] ctl = "stop" -> "stopped" [] ctl = "abort" -> "aborted"
+FiatRet ==
+    /\ todo # <<>> /\ H.op = "fiatRet"
+    /\ Pop
+    /\ lab' = [k |-> "Fiat", t |-> H.t, ctl |-> H.ctl, ok |-> (fs[H.t].status = Reached(H.ctl))]
+    /\ UNCHANGED <<prog, phase, now, tickn, pending, ready, more, cur, fs, store, entered, crashed, sweeps>>
+
+MachineStep == FiatRet \/ RunOp \/ SetStatus \/ Yield \/ EnterAll \/ EnterFrames \/ EnterFrame \/ SetMain \/ ExitAll
                \/ Deactivate \/ (\E b \in BOOLEAN : ExitFrame(b)) \/ ForceExit \/ Activate \/ Segue \/ Recur \/ RecurFrame \/ PrecurWalk
                \/ (\E b \in BOOLEAN : Suspend(b)) \/ Reactivate \/ DoAct \/ Requeue
 
